@@ -3,6 +3,7 @@ package main
 // C09 / C10 workloads: file-backed databases with clean shutdowns, crash-style stops and reopens.
 
 import (
+	"strings"
 	"encoding/json"
 	"fmt"
 	"math/rand"
@@ -98,9 +99,17 @@ func sqlC09(args []string) error {
 		if ctx == "C09" && pool < 1024 && (sc%2 == 1 || sc%6 == 4) {
 			pool = 1024 // the scenarios with a second, large table and a join, or with a hash index: more pages pinned at a time
 		}
+		if ctx == "C10" && sc%8 == 7 {
+			pool = 8192 // fifteen tables with up to four indexes each keep their index pages pinned
+		}
 		s, err := newFileRun(tw, ctx, dir, pool)
 		if err != nil {
 			return err
+		}
+		if ctx == "C10" && sc%8 == 7 {
+			s.wideCatalog(rng, sc)
+			s.closeFiles()
+			continue
 		}
 		if (ctx == "C07" && sc%4 == 3) || (ctx == "C09" && sc%6 == 4) { // (C09: clean restarts only)
 			s.hashRestarts(rng, sc)
@@ -330,6 +339,66 @@ func sqlC10Walk(args []string) error {
 		s.closeFiles()
 	}
 	return tw.Close()
+}
+
+// wideCatalog: enough tables and long column names that the columns catalog outgrows its first heap page; a
+// restart; tables created afterwards with short and long column names (their catalog rows land on different pages of
+// the catalog heap, between the rows of older tables); another restart; every column of every table must still be there.
+func (s *sqlRun) wideCatalog(rng *rand.Rand, sc int) {
+	tables := []*tableDef{}
+	mk := func(n int, long []bool) *tableDef {
+		t := &tableDef{name: fmt.Sprintf("wc%d_%d", sc, len(tables)), kinds: nil}
+		for c := 0; c < n; c++ {
+			t.cols = append(t.cols, []string{"int", "varchar", "float"}[rng.Intn(3)])
+			name := fmt.Sprintf("c%d", c)
+			if long[c] {
+				name = fmt.Sprintf("c%d_%s", c, strings.Repeat("n", 50+rng.Intn(30)))
+			}
+			t.names = append(t.names, name)
+		}
+		t.kinds = make([]string, n)
+		for c := range t.kinds {
+			t.kinds[c] = []string{"none", "skiplist"}[rng.Intn(2)]
+		}
+		s.createAPI(t)
+		s.insert(t, [][]int{randRow(rng, t, NRanks-1), randRow(rng, t, NRanks-1)}, nil)
+		tables = append(tables, t)
+		return t
+	}
+	all := func(n int, v bool) []bool {
+		out := make([]bool, n)
+		for i := range out {
+			out[i] = v
+		}
+		return out
+	}
+	for i := 0; i < 12; i++ {
+		mk(4, all(4, true))
+	}
+	check := func() {
+		for _, t := range tables {
+			s.scan(t)
+			// every column by name, alone
+			for c := range t.cols {
+				s.selectQ(t, predTrue, []int{c}, false)
+			}
+		}
+	}
+	check()
+	s.restart(rng.Intn(2) == 0)
+	check()
+	// short first column, long later ones - and the other way round
+	mk(4, []bool{false, true, true, false})
+	mk(3, []bool{true, false, true})
+	mk(4, []bool{false, false, true, true})
+	check()
+	s.restart(rng.Intn(2) == 0)
+	check()
+	for _, t := range tables[len(tables)-3:] {
+		s.insert(t, [][]int{randRow(rng, t, NRanks-1)}, nil)
+	}
+	s.restart(true)
+	check()
 }
 
 // hashRestarts: a table with a hash index over MANY distinct keys (so that every block of the hash table holds
